@@ -80,6 +80,39 @@ def cases(tier):
     fn = ("function f input Real a; input Real b; output Real r; protected Real t; algorithm t := a + b; t := t * 2; r := t - a; end f; "
           "model M Real x; Real y; equation y = f(x, 3); x = 0; end M;")
     out.append((fn, {"x": 1.5, "y": 0.0}, [-((1.5 + 3) * 2 - 1.5)], "user function"))
+    # for-statement in a function whose body statements depend on each other: iteration by iteration, statement by statement
+    fs = ("function g input Real x; output Real p; protected Real s; algorithm s := 0; p := 1; for i in 1:3 loop s := s + x; p := p * s; end for; end g; "
+          "model M Real x; Real y; equation y = g(x); x = 0; end M;")
+    for xv in (1.0, 2.0, -0.5):
+        s_, p_ = 0.0, 1.0
+        for _ in range(3):
+            s_ = s_ + xv
+            p_ = p_ * s_
+        out.append((fs, {"x": xv, "y": 0.0}, [-p_], "for-statement coupled body"))
+    fs2 = ("function h input Real x; output Real q; protected Real a; protected Real b; algorithm a := x; b := 1; for i in 1:2:5 loop b := a + b * i; a := b - i; end for; q := a + 10 * b; end h; "
+           "model M Real x; Real y; equation y = h(x); x = 0; end M;")
+    for xv in (1.0, 0.25):
+        a_, b_ = xv, 1.0
+        for i in (1, 3, 5):
+            b_ = a_ + b_ * i
+            a_ = b_ - i
+        out.append((fs2, {"x": xv, "y": 0.0}, [-(a_ + 10 * b_)], "for-statement stepped coupled body"))
+    # if-statement in a function: the first true branch wins for every assigned variable
+    fi = ("function k input Real x; output Real r; output Real t; algorithm if x > 1 then r := 10; t := x; elseif x > 2 then r := 20; t := 2 * x; else r := 30; t := 3 * x; end if; end k; "
+          "model M Real x; Real y; Real z; equation (y, z) = k(x); x = 0; end M;")
+    for xv in (0.5, 1.5, 2.5):
+        r_, t_ = (10.0, xv) if xv > 1 else (30.0, 3 * xv)
+        out.append((fi, {"x": xv, "y": 0.0, "z": 0.0}, [-r_, -t_], "if-statement"))
+    # surplus outputs of a function call are discarded, the kept ones stay in declaration order
+    fo = ("function k2 input Real x; output Real r; output Real t; algorithm r := x + 1; t := x * 7; end k2; "
+          "model M Real x; Real y; equation y = k2(x); x = 0; end M;")
+    out.append((fo, {"x": 2.0, "y": 0.0}, [-3.0], "function output truncation"))
+    # for-equation over two indexed arrays and a free symbol
+    fe = "model M Real x; Real a[4]; Real b[4]; Real y[4]; equation for i in 1:4 loop y[i] = a[i] * x - b[i]; end for; x = 0; end M;"
+    out.append((fe, {"x": 3.0, "a": [1.0, 2.0, 3.0, 4.0], "b": [10.0, 20.0, 30.0, 40.0], "y": [0.0] * 4}, [-(ai * 3.0 - bi) for ai, bi in zip([1, 2, 3, 4], [10, 20, 30, 40])],
+                "for-loop two indexed arrays"))
+    fe2 = "model M Real a[4]; Real y[3]; equation for i in 1:3 loop y[i] = a[i + 1] - a[i]; end for; a = {0, 0, 0, 0}; end M;"
+    out.append((fe2, {"a": [1.0, 4.0, 9.0, 16.0], "y": [0.0] * 3}, [-3.0, -5.0, -7.0], "for-loop shifted index"))
     # derivatives are independent inputs
     out.append(("model M Real x; equation der(x) = 2 * x + 1; end M;", {"x": 3.0, "der(x)": 0.25}, [0.25 - 7.0], "derivative input"))
     return out
@@ -103,7 +136,7 @@ def main():
                 break
     if payload.get("mode") == "bounded":
         print(json.dumps({"performed": True, "cases": n, "distinct_nontrivial": n, "failures": failures,
-                          "rule": "one real model per operator (+ - * / ^, relations incl. <>, not/and/or, min/max/abs, elementary functions) at several points, if-expressions and if-equations with 3 conditions evaluated where 0..3 of them hold, for-loops over stepped / descending ranges, element-wise operators, indexing, slices, a user function with an algorithm section, der() as independent input; the first residual rows are compared with a Python reference",
+                          "rule": "one real model per operator (+ - * / ^, relations incl. <>, not/and/or, min/max/abs, elementary functions) at several points, if-expressions and if-equations with 3 conditions evaluated where 0..3 of them hold, for-loops over stepped / descending ranges, element-wise operators, indexing, slices, a user function with an algorithm section, for-statements whose body statements depend on each other, if-statements, discarded function outputs, for-equations over several indexed arrays, der() as independent input; the first residual rows are compared with a Python reference",
                           "bound": "%d model/point pairs" % n}))
     else:
         f = failures[0] if failures else None
